@@ -128,7 +128,12 @@ Definition saturate_from (x : f32) : Z :=
 Definition saturate_floor (x : f32) : Z := saturate_from (F32.floor x).
 Definition saturate_ceil (x : f32) : Z := saturate_from (F32.ceil x).
 (* as written in the source: floor(x) + 0.5, then the truncating cast *)
-Definition saturate_round (x : f32) : Z := saturate_from (F32.add (F32.floor x) F32.half).
+(* since fix 8d428c4 negative values are rounded with floor(x + 0.5); non-negative ones keep floor(x) + 0.5 truncated *)
+Definition saturate_round (x : f32) : Z :=
+  if F32.lt x F32.zero then saturate_from (F32.floor (F32.add x F32.half))
+  else saturate_from (F32.add (F32.floor x) F32.half).
+(* the pinned behaviour, kept for the recorded finding *)
+Definition saturate_round_pinned (x : f32) : Z := saturate_from (F32.add (F32.floor x) F32.half).
 
 (* `v as u32` for an i32 value (two's complement reinterpretation) *)
 Definition i32_as_u32 (v : Z) : Z := v mod 4294967296.
